@@ -28,9 +28,9 @@ func init() {
 			Setup: txnSetup, Exec: txnExec, Random: nil, Sig: txnSig, Assume: assume, MCWorkers: 12,
 		}
 	}
-	c05 := mk("C05", []string{"cells are small integers and NULL; statement forms: INSERT (1 and 2 rows, wrong length), UPDATE/DELETE with and without WHERE, REPLACE on one key column, ADD/DROP/RENAME column, on file tables and a temporary table; INSERT..SELECT, column lists, UPDATE..FROM join, multi-assignment UPDATE, ADD FIRST / DEFAULT expression, CREATE TABLE AS SELECT, SET ENCODING"}, "TxnGen_create.cfg")
+	c05 := mk("C05", []string{"cells are small integers and NULL; statement forms: INSERT (1 and 2 rows, wrong length), UPDATE/DELETE with and without WHERE, REPLACE on one key column, ADD/DROP/RENAME column, on file tables and a temporary table; INSERT..SELECT, column lists, UPDATE..FROM join, multi-assignment UPDATE, ADD FIRST / DEFAULT expression, CREATE TABLE AS SELECT, SET ENCODING, inserts made by user-defined functions"}, "TxnGen_create.cfg", "TxnGen_temp.cfg")
 	c05.Random = func(r *core.Run, k int) (Action, []Action) { return txnRandom(r, k, "dml") }
-	c08 := mk("C08", []string{"failure causes modelled: division by zero at one row of a multi-row UPDATE, wrong row length, unknown field after RENAME/DROP, duplicate column, existing file, missing file, failing DEFAULT expression, ambiguous join update, CREATE TABLE AS SELECT with wrong names / failing query, COMMIT that cannot encode a changed file"}, "TxnGen_create.cfg", "TxnGen_commitfail.cfg")
+	c08 := mk("C08", []string{"failure causes modelled: division by zero at one row of a multi-row UPDATE, wrong row length, unknown field after RENAME/DROP, duplicate column, existing file, missing file, failing DEFAULT expression, ambiguous join update, CREATE TABLE AS SELECT with wrong names / failing query, COMMIT that cannot encode a changed file"}, "TxnGen_create.cfg", "TxnGen_commitfail.cfg", "TxnGen_temp.cfg")
 	c08.Random = func(r *core.Run, k int) (Action, []Action) { return txnRandom(r, k, "fail") }
 	c20 := mk("C20", []string{"the environment is a second real csvq transaction in the same OS process with a 50 ms wait timeout; reads by identifier, sub-query, aggregate and table function (f2 carries a byte order mark)"}, "TxnGen_reads.cfg")
 	c20.Random = func(r *core.Run, k int) (Action, []Action) { return txnRandom(r, k, "env") }
@@ -101,8 +101,14 @@ func txnSetup(dir string, init Action) []string {
 	}
 	// nobody else holds these files (the environment process commits and leaves): a lock that is still there
 	// was left behind by an earlier statement - do not wait 10 s for it
-	return []string{"SET @@WAIT_TIMEOUT TO 0.5;", "DECLARE tt VIEW (id, v);"}
+	return append([]string{"SET @@WAIT_TIMEOUT TO 0.5;"}, txnPreamble...)
 }
+
+// declarations every Txn program starts with: the temporary table, a variable to receive function results, a function
+// that runs off its end and one inserting function per table
+var txnPreamble = []string{"DECLARE tt VIEW (id, v);", "VAR @z;", "DECLARE noop FUNCTION () AS BEGIN VAR @q := 1; END;",
+	"DECLARE ins_f1 FUNCTION (@k) AS BEGIN INSERT INTO `f1.csv` VALUES (@k, 1); END;", "DECLARE ins_f2 FUNCTION (@k) AS BEGIN INSERT INTO `f2.csv` VALUES (@k, 1); END;",
+	"DECLARE ins_tt FUNCTION (@k) AS BEGIN INSERT INTO tt VALUES (@k, 1); END;"}
 
 func tname(t string) string {
 	if t == "tt" {
@@ -198,6 +204,10 @@ func txnSQL(a Action) string {
 			return "CREATE TABLE `f3.csv` (id, v) AS SELECT id, 1 % 0 FROM " + u + ";"
 		}
 		return "CREATE TABLE `f3.csv` (id, v) AS SELECT id, v FROM " + u + ";"
+	case "callnoop":
+		return "@z := noop();"
+	case "callins":
+		return fmt.Sprintf("@z := ins_%s(%d);", aStr(a, "t"), k)
 	case "create":
 		return "CREATE TABLE `f3.csv` (id, v);"
 	case "commit":
@@ -273,13 +283,26 @@ func txnExec(p *sut.Proc, a Action) Out {
 		}
 		return Out{K: "val", Vals: showTable(r.Out)}
 	case "disk":
+		if c, _ := p.User["created"].(bool); c && aStr(a, "t") == "f3" {
+			if _, err := os.Stat(filepath.Join(p.Dir, "f3.csv")); err == nil {
+				return Out{K: "val", Vals: []string{"CREATED"}}
+			}
+			return Out{K: "val", Vals: []string{"CREATED-BUT-NO-FILE"}}
+		}
 		return Out{K: "val", Vals: showFile(filepath.Join(p.Dir, aStr(a, "t")+".csv"), true)}
 	case "env":
 		return envCommit(p, aStr(a, "t"))
-	case "create", "commit", "rollback", "setenc", "createas":
+	case "create", "commit", "rollback", "setenc", "createas", "callnoop":
 		r := p.Exec(txnSQL(a))
 		if r.Err != "" {
 			return Out{K: "err", E: errClass(r), Vals: []string{}}
+		}
+		// the harness's own note of "f3 is created and not yet committed" (for what the disk action may see)
+		switch actName(a) {
+		case "create", "createas":
+			p.User["created"] = true
+		case "commit", "rollback":
+			p.User["created"] = false
 		}
 		return Out{K: "ok", Vals: []string{}}
 	}
@@ -511,7 +534,7 @@ func runC01(r *core.Run) {
 		nsim = 4000
 	}
 	var behs []c01beh
-	for gi, gcfg := range []string{"TxnScriptGen.cfg", "TxnScriptGen_commitfail.cfg", "TxnScriptGen_create.cfg"} {
+	for gi, gcfg := range []string{"TxnScriptGen.cfg", "TxnScriptGen_commitfail.cfg", "TxnScriptGen_create.cfg", "TxnScriptGen_temp.cfg"} {
 		ns := nsim
 		if gi > 0 {
 			ns = nsim * 2
@@ -565,7 +588,7 @@ func runC01(r *core.Run) {
 			}
 		}
 		var sql strings.Builder
-		sql.WriteString("DECLARE tt VIEW (id, v);\n")
+		sql.WriteString(strings.Join(txnPreamble, "\n") + "\n")
 		var selects []Out
 		var selectAgg []bool
 		attrChanged := map[string]bool{} // SET ENCODING is a change of the file although the table stays the same
@@ -655,6 +678,7 @@ func runC01(r *core.Run) {
 	}
 	core.Parallel(len(behs), 8, func(i int) { results[i] = runOne(i, behs[i]) })
 	reported := map[string]bool{}
+	unrep := 0
 	for i, x := range results {
 		r.Count("procedures_run_"+behs[i].how, 1)
 		for k, a := range behs[i].acts {
@@ -670,9 +694,20 @@ func runC01(r *core.Run) {
 		if x.sig == "" || reported[x.sig] {
 			continue
 		}
+		// an outcome that depends on an unordered iteration (which of two changed files is written first) shows in some
+		// runs only: several attempts; what never shows again is noted, not reported
 		again := runOne(1000000+i, behs[i])
+		for try := 1; again.sig == "" && try < 12; try++ {
+			again = runOne(1000000+i*16+try, behs[i])
+		}
 		if again.sig == "" {
-			core.Fail("C01 mismatch %s did not reproduce", x.sig)
+			unrep++
+			fmt.Printf("NOTE property=C01 unreproduced mismatch %s: %s\n", x.sig, firstLine(x.what))
+			r.Coverage["unreproduced_mismatches"] = unrep
+			if unrep > 5 {
+				core.Fail("C01: %d mismatches that do not reproduce", unrep)
+			}
+			continue
 		}
 		reported[x.sig] = true
 		r.Violation(again.sig, again.what, map[string]interface{}{"init": behs[i].init, "actions": behs[i].acts, "end": behs[i].how, "final": behs[i].final})
